@@ -120,5 +120,18 @@ CHECKS["C17"] = {
     "technique": "stateless model checking over registration histories (replay on a fresh dispatcher, all argument tuples judged after every transition) plus exhaustive enumeration of generated instantiations",
 }
 
+CHECKS["C04"] = {
+    "engine": "E3-exhaustive-enumerator",
+    "category": "exploration",
+    "text": "The overload space is a finite matrix generated from X-macro tables of the operator and function names: wrapper {xoptional, xmasked_value} x 14 binary operators, ==/!=, 4 unary, 8 compound, 36+8+1 lifted "
+            "functions, value_or, select x every assignment of {plain, value closure, reference closure (thorough: const-reference closure)} to the argument positions x all presence vectors x all value tuples over a "
+            "boundary alphabet (0, +-1, extremes, NaN, inf, -0). Every cell is executed on the real overload; the oracle is the statement's lifted rule computed on builtin values, a call-counting element type that makes "
+            "evaluation on a missing operand observable (must be 0), and a forked child for integer / and % by a missing zero. The overloads are independent pure functions, so complete enumeration of the matrix is the whole space within the value alphabet.",
+    "design_ref": "DESIGN.md section 3, C04",
+    "note": "Trusted: builtin/std:: arithmetic as reference; the Traced counting type. Bounds: value alphabets of 7 (thorough 13) values per type; element types int, double, Traced; bool flags. "
+            "Not judged: non-evaluation for ==/!= and unary operators (exempt in the statement), the value stored in a missing result.",
+    "technique": "bounded exhaustive enumeration of the overload x operand-kind x presence x value matrix against the lifted-semantics oracle with evaluation counters",
+}
+
 NOT_YET = "check not built yet in this round; design in DESIGN.md section 3"
 NOT_APPLICABLE = {}
